@@ -196,7 +196,8 @@ def validate_trace(workdir, trace, check, module="ResponderTrace.tla", tag="t", 
     """Returns dict(accepted, events, exercised, rejected_at, ln, states).  Raises Infra on TLC trouble."""
     # TLC integers are 32-bit and the JSON reader wraps silently: refuse traces with wider numbers
     with open(trace) as f:
-        for big in re.finditer(r"(?<![\d.])-?\d{10,}(?![\d.])", f.read()):
+        # (numbers only: what stands inside a string - a scenario name in a mark event - is not read as a number)
+        for big in re.finditer(r"(?<![\d.])-?\d{10,}(?![\d.])", re.sub(r'"[^"\\]*"', '""', f.read())):
             if abs(int(big.group(0))) >= 2 ** 31:
                 raise Infra("trace %s holds the number %s, which does not fit TLC's 32-bit integers" % (trace, big.group(0)))
     # several instances driven in one process (automata driver, INST k): each instance's events form a trace of
